@@ -3,14 +3,11 @@ import Ymq.Props.C03Squfof
 #print axioms Ymq.C03Squfof.isqrt_total
 #print axioms Ymq.C03Squfof.squfof_seed_irrelevant
 #print axioms Ymq.C03Squfof.squfof_sound
+#print axioms Ymq.C03Squfof.squfof_no_panic
+#print axioms Ymq.C03Squfof.attempt_no_panic
+#print axioms Ymq.C03Squfof.attempt_skips_square
 #print axioms Ymq.C03Squfof.squfof_exit
-#print axioms Ymq.C03Squfof.squfof_uses_exit
 #print axioms Ymq.C03Squfof.squfof_proper
-#print axioms Ymq.C03Squfof.attempt_panic_iff
-#print axioms Ymq.C03Squfof.squfof_panic_iff
-#print axioms Ymq.C03Squfof.squfof_no_panic_partial
-#print axioms Ymq.C03Squfof.squfof_no_panic_reachable
-#print axioms Ymq.C03Squfof.squfof_panics_on_2
-#print axioms Ymq.C03Squfof.squfof_panics_on_small_primes
-#print axioms Ymq.C03Squfof.squfof_panics_on_50
-#print axioms Ymq.C03Squfof.squfof_panics_on_6000163058
+#print axioms Ymq.C03Squfof.squfof_trivial_split_small_primes
+#print axioms Ymq.C03Squfof.squfof_uses_exit
+#print axioms Ymq.C03Squfof.sqOracle_uses_exit
